@@ -79,7 +79,8 @@ def scan(ctx, ops_path, impl_path, model_path):
             if a == b:
                 continue
             op = ops[i].split()[0] if ops[i].split() else ""
-            if flagged and op in U_OPS and not a.startswith("<missing") and not b.startswith("<missing"):
+            if (flagged and op in U_OPS and not a.startswith("<missing") and not b.startswith("<missing")
+                    and a != "crash" and "crash" not in a.split()[:2]):
                 bad_u.append((i - s, a, b))
             elif bad_real is None:
                 bad_real = (ops[s:e], i - s, a, b)
@@ -126,12 +127,12 @@ def classify(op_line, impl_line, model_line):
     op = (op_line.split() or ["?"])[0]
     if impl_line.startswith("<missing") or impl_line == "crash":
         return "krt:crash", "the real krt collections panicked or the harness stopped"
-    if op in ("stream", "ustream"):
+    if op in ("stream", "ustream", "pstream", "dstream"):
         kind = "event" if "reject:event" in model_line else ("contents" if "reject:contents" in model_line else "other")
         return ("krt:stream:%s" % kind,
                 "a subscriber's recorded event stream is rejected by the verified monitor (%s)" % model_line)
-    if op in ("list", "get", "lookup", "ulist", "ulookup"):
-        return ("krt:%s" % op.lstrip("u"),
+    if op in ("list", "get", "lookup", "ulist", "ulookup", "flookup"):
+        return ("krt:%s" % ("lookup" if op == "flookup" else op.lstrip("u")),
                 "%s on the real collection differs from the transformation applied to the current inputs" % op)
     return "krt:%s" % op, "model and implementation answer differently to '%s'" % op_line
 
